@@ -82,7 +82,7 @@ Hypothesis Hrep : s_replicas s = Some r.
 Hypothesis Hext : extend r (get_slots (s_slots s)) = (cnt, slots).
 Hypothesis W : wf s cnt slots (w_pods w).
 Hypothesis Hnd : NoDup (w_pods w).
-Hypothesis Hcc : forall j, in_range cnt slots j = true -> claims_cached s w j.
+Hypothesis Hnames : NoDup (flat_map (fun j => map (fun t => claim_name t (s_name s) j) (s_claims s)) (ordinals_of cnt slots)).
 Hypothesis Hrhl : s_rhl s = Some limit.
 Hypothesis Hsmall : Z.of_nat (length (sort_revs (lrevs w s))) <= limit.
 
@@ -139,10 +139,10 @@ Proof.
   match goal with |- forall st, _ -> _ -> forall r0 st', ?m st = _ -> _ => change (hk (fun x => x = w) m after_ok) end.
   eapply hk_bind_hoare; [apply reads_hoare; apply (reads_gsr hashes w s _ _ Hgsr)|]. intros y. cbv beta.
   intros st [Hy HP] Hf. subst y. cbv beta iota zeta. rewrite <- Hcur, <- Hupd.
-  destruct (plan_some s upd cnt slots Hcnt Hdel cur w rcur rupd coll r Hcur Hupd Hrep Hext W Hcc) as (po & Hpo & Hacts). rewrite Hpo, Hacts. revert st HP Hf.
+  destruct (plan_some s upd cnt slots Hcnt Hdel cur w rcur rupd coll r Hcur Hupd Hrep Hext W Hnames) as (po & Hpo & Hacts). rewrite Hpo, Hacts. revert st HP Hf.
   match goal with |- forall st, _ -> _ -> forall r0 st', ?m st = _ -> _ => change (hk (fun x => x = w) m after_ok) end.
   eapply hk_bind_hoare.
-  { apply (exec_acts_ok s cache acts w). apply (plan_all_ok s upd cnt slots Hcnt Hdel Hclaims Huc cur pods W cache). intros j R. apply Hcc. exact R. }
+  { apply (exec_acts_ok s cache acts w). apply (plan_all_ok s upd cnt slots Hcnt Hdel Hclaims Huc cur pods W cache Hnames). }
   intros u'. cbv beta.
   apply (tail_ok po _ Hpo Hacts); cbn; [exact Hset | reflexivity].
 Qed.
@@ -250,6 +250,7 @@ Hypothesis Hpause : get_paused (s_pause s0) = false.
 Hypothesis Hsel : s_selector s0 = SelOk.
 Hypothesis Hrep : s_replicas s0 = Some r.
 Hypothesis Hext : extend r (get_slots (s_slots s0)) = (cnt, slots).
+Hypothesis Hnames : NoDup (flat_map (fun j => map (fun t => claim_name t (s_name s0) j) (s_claims s0)) (ordinals_of cnt slots)).
 Hypothesis Hrhl : s_rhl s0 = Some limit.
 
 Variable Wd : nat -> world.
@@ -261,7 +262,6 @@ Hypothesis Hset0 : w_set (Wd O) = Some (set_status s0 st0 rv0).
 Hypothesis W0 : wf s0 cnt slots (w_pods (Wd O)).
 Hypothesis N0 : NoDup (w_pods (Wd O)).
 Hypothesis C0 : all_claimed s0 (w_pods (Wd O)).
-Hypothesis K0 : forall j, in_range cnt slots j = true -> claims_cached s0 (Wd O) j.
 Hypothesis A0 : nothing_to_adopt (Wd O) s0 = true.
 Hypothesis G0 : gsr_value hashes (set_status s0 st0 rv0) (sort_revs (lrevs (Wd O) s0)) = Some (rcur0, rupd, coll).
 Hypothesis Hupd0 : upd = rinfo_of rupd.
@@ -284,8 +284,8 @@ Lemma J_all : forall k, J k.
 Proof.
   induction k as [|k IH].
   - split; [|split; [reflexivity | exists st0, rv0, rcur0; split; [exact Hset0 | exact G0]]].
-    split; [exists st0, rv0; exact Hset0|]. split; [exact W0|]. split; [exact N0|]. split; [exact C0 | exact K0].
-  - destruct IH as (((stx & rvx & Hsx) & Wk & Nk & Ck & Kk) & Rk & (st & rv & c & Hs & Hg)).
+    split; [exists st0, rv0; exact Hset0|]. split; [exact W0|]. split; [exact N0 | exact C0].
+  - destruct IH as (((stx & rvx & Hsx) & Wk & Nk & Ck) & Rk & (st & rv & c & Hs & Hg)).
     set (s := set_status s0 st rv) in *.
     assert (Hl : lrevs (Wd k) s = lrevs (Wd O) s0) by (rewrite (lrevs_revs _ _ s Rk); reflexivity).
     assert (Hucs : forall i, use_current s i = true -> i < umin_of s).
@@ -297,18 +297,16 @@ Proof.
     assert (Hsm : Z.of_nat (length (sort_revs (lrevs (Wd k) s))) <= limit) by (rewrite Hl; exact Hsmall).
     (* the pods *)
     pose proof (lift_round s upd cnt slots Hcnt Hdel Hclaims Hucs (rinfo_of c) hashes (Wd k) c rupd coll r
-                  Hs Hpause Hsel Had Q1 Q2 Hgk eq_refl Hupd0 Hrep Hext Wk' Nk Kk) as [L1 L2].
+                  Hs Hpause Hsel Had Q1 Q2 Hgk eq_refl Hupd0 Hrep Hext Wk' Nk Hnames) as [L1 L2].
     unfold s in L2. rewrite (round_status s0 st rv Hroll) in L2. rewrite <- Hstep in L1, L2.
     (* the revisions and the set *)
     pose proof (env_round_revs_set hashes s upd cnt slots Hcnt Hdel Hclaims Hucs (rinfo_of c) (Wd k) c rupd coll r limit
-                  Hs Hpause Hsel Had Q1 Q2 Hgk eq_refl Hupd0 Hrep Hext Wk' Kk Hrhl Hsm) as [E1 E2].
+                  Hs Hpause Hsel Had Q1 Q2 Hgk eq_refl Hupd0 Hrep Hext Wk' Hnames Hrhl Hsm) as [E1 E2].
     rewrite <- Hstep in E1, E2.
     split; [|split; [rewrite E1; exact Rk|]].
-    + split; [rewrite Hstep; apply (env_round_set hashes s0 cnt r slots Hdel Hclaims Hroll Hpause Hsel Hrep Hext (Wd k) st rv Hs)|].
+    + split; [rewrite Hstep; apply (env_round_set hashes s0 cnt r slots Hdel Hclaims Hroll Hpause Hsel Hrep Hext Hnames (Wd k) st rv Hs)|].
       split; [apply (wf_members s0 cnt slots (round s0 upd cnt slots (rinfo_of c) (w_pods (Wd k)))); [apply (round_wf s0 upd cnt slots Hcnt Hclaims (Huc0 s0 Hroll)); exact Wk | exact L2]|].
-      split; [exact L1|]. split; [apply (all_claimed_round s0 upd cnt slots Hcnt Hclaims Hroll (rinfo_of c) (w_pods (Wd k))); assumption|].
-      intros j R t Ht. specialize (Kk j R t Ht). unfold smemb in *. apply existsb_exists in Kk. destruct Kk as (x & Hx & Ex).
-      apply existsb_exists. exists x. split; [|exact Ex]. rewrite Hstep. apply env_round_claims. exact Hx.
+      split; [exact L1|]. apply (all_claimed_round s0 upd cnt slots Hcnt Hclaims Hroll (rinfo_of c) (w_pods (Wd k))); assumption.
     + destruct E2 as (po & Hpo & _ & [[E2 _]|[E2 _]]); cbv zeta in E2.
       * exists st, rv, c. split; [exact E2 | exact Hg].
       * set (st' := complete_rolling_update s (po_status po)) in *.
@@ -337,8 +335,8 @@ Theorem full_model_converges_closed :
          pods_converged s0 upd cnt slots (w_pods (Wd m)) /\ same_members (w_pods (Wd m)) (w_pods (Wd k))
          /\ forall cur, plan_acts s0 cur upd cnt slots (w_pods (Wd m)) = [].
 Proof.
-  apply (full_model_converges_rev_quiet hashes s0 upd cnt r slots Hcnt Hdel Hclaims Hroll Hpause Hsel Hrep Hext
-           Wd (fun k => cur_fun (Wd k)) Hstep J_rev_quiet (ex_intro _ st0 (ex_intro _ rv0 Hset0)) W0 N0 C0 K0).
+  apply (full_model_converges_rev_quiet hashes s0 upd cnt r slots Hcnt Hdel Hclaims Hroll Hpause Hsel Hrep Hext Hnames
+           Wd (fun k => cur_fun (Wd k)) Hstep J_rev_quiet (ex_intro _ st0 (ex_intro _ rv0 Hset0)) W0 N0 C0).
 Qed.
 
 
@@ -360,7 +358,7 @@ Lemma round_facts k :
         (w_set (Wd (S k)) = Some s /\ inconsistent_status s st' = false)
         \/ (w_set (Wd (S k)) = Some (set_status s st' (s_rv s + 1)) /\ inconsistent_status s st' = true)).
 Proof.
-  destruct (J_all k) as (((stx & rvx & Hsx) & Wk & Nk & Ck & Kk) & Rk & (st & rv & c & Hs & Hg)).
+  destruct (J_all k) as (((stx & rvx & Hsx) & Wk & Nk & Ck) & Rk & (st & rv & c & Hs & Hg)).
   set (s := set_status s0 st rv) in *.
   assert (Hl : lrevs (Wd k) s = lrevs (Wd O) s0) by (rewrite (lrevs_revs _ _ s Rk); reflexivity).
   assert (Hucs : forall i, use_current s i = true -> i < umin_of s).
@@ -371,10 +369,10 @@ Proof.
   assert (Wk' : wf s cnt slots (w_pods (Wd k))) by (apply (proj1 (wf_status s0 st rv cnt slots _)); exact Wk).
   assert (Hsm : Z.of_nat (length (sort_revs (lrevs (Wd k) s))) <= limit) by (rewrite Hl; exact Hsmall).
   pose proof (lift_round s upd cnt slots Hcnt Hdel Hclaims Hucs (rinfo_of c) hashes (Wd k) c rupd coll r
-                Hs Hpause Hsel Had Q1 Q2 Hgk eq_refl Hupd0 Hrep Hext Wk' Nk Kk) as [L1 L2].
+                Hs Hpause Hsel Had Q1 Q2 Hgk eq_refl Hupd0 Hrep Hext Wk' Nk Hnames) as [L1 L2].
   unfold s in L2. rewrite (round_status s0 st rv Hroll) in L2. rewrite <- Hstep in L1, L2.
   pose proof (env_round_revs_set hashes s upd cnt slots Hcnt Hdel Hclaims Hucs (rinfo_of c) (Wd k) c rupd coll r limit
-                Hs Hpause Hsel Had Q1 Q2 Hgk eq_refl Hupd0 Hrep Hext Wk' Kk Hrhl Hsm) as [_ (po & Hpo & Hac & E2)].
+                Hs Hpause Hsel Had Q1 Q2 Hgk eq_refl Hupd0 Hrep Hext Wk' Hnames Hrhl Hsm) as [_ (po & Hpo & Hac & E2)].
   rewrite <- Hstep in E2. unfold s in Hac. rewrite (plan_acts_status s0 st rv Hroll) in Hac.
   exists st, rv, c, po. cbv zeta. fold s.
   split; [exact Hs|]. split; [exact Hg|]. split; [exact Hl|]. split; [exact Had|]. split; [exact Hpo|]. split; [exact Hac|].
